@@ -83,6 +83,9 @@ class Manager(base_manager.BaseManager):
         """Invoke an application callback."""
         callback = None
         try:
+            if id == 0:
+                # slot 0 holds the ack id generator, it is never a callback
+                raise KeyError(id)
             callback = self.callbacks[sid][id]
         except KeyError:
             # if we get an unknown callback we just ignore it
